@@ -82,7 +82,7 @@ def run(ctx, driver):
     vals = [None, 0, 1.5, 2.5, 3.5, 4.5]
     cfgs = [{"connect": 1.5, "read": 2.5, "write": 3.5, "pool": 4.5}, {}, {"connect": 0, "read": 0, "write": 0, "pool": 0},
             {"read": 2.5}, {"connect": 1.5}, {"write": 3.5}, {"connect": None, "read": 2.5, "write": None}]
-    for _ in range(4 if ctx.quick else 40):
+    for _ in range(4 if ctx.quick else 400):
         cfgs.append({k: v for k, v in ((k, rng.choice(vals)) for k in KEYS) if rng.random() < 0.8})
     for kind in sweep.KINDS + ["direct-h1-interim"]:
         negotiation_kind = kind.startswith("socks5")
